@@ -52,6 +52,8 @@ var pureExternalPrefixes = []string{
 	"github.com/cosmos/gogoproto/proto.", "github.com/gogo/protobuf/proto.", "github.com/golang/protobuf/proto.", "google.golang.org/protobuf/proto.",
 	"github.com/lavanet/lava/v5/protocol/parser.CapStringLen", "github.com/lavanet/lava/v5/utils/common/types.ValidateString",
 	"unicode/utf8.", "slices.", "maps.", "golang.org/x/exp/slices.", "golang.org/x/exp/maps.",
+	"github.com/cosmos/cosmos-sdk/types.AccAddressFromHexUnsafe", "(*github.com/cosmos/cosmos-sdk/crypto/keys/secp256k1.PubKey).",
+	"(github.com/cometbft/cometbft/libs/bytes.HexBytes).", "(github.com/cometbft/cometbft/crypto.Address).",
 }
 
 // always-non-nil error results
